@@ -87,7 +87,8 @@ func (v *SliceSchema) validate(ctx *p.SchemaCtx) {
 
 	if isZeroVal || refVal.Len() == 0 {
 		if v.defaultVal != nil {
-			refVal.Set(reflect.ValueOf(v.defaultVal))
+			// copy the default, otherwise the validated value and the schema share memory and changing one changes the other
+			refVal.Set(cloneSliceValue(reflect.ValueOf(v.defaultVal)))
 		} else if v.required == nil {
 			return
 		} else {
@@ -383,4 +384,16 @@ func sliceLength(n int) (Test, BoolTFunc) {
 	}
 	t.Params[zconst.IssueCodeLen] = n
 	return t, fn
+}
+
+// returns a copy of a slice value that shares no slice memory with the original (nested slices are copied too)
+func cloneSliceValue(v reflect.Value) reflect.Value {
+	if v.Kind() != reflect.Slice || v.IsNil() {
+		return v
+	}
+	cp := reflect.MakeSlice(v.Type(), v.Len(), v.Len())
+	for idx := 0; idx < v.Len(); idx++ {
+		cp.Index(idx).Set(cloneSliceValue(v.Index(idx)))
+	}
+	return cp
 }
